@@ -93,7 +93,7 @@ def _offset_stores(b):
     return out
 
 
-def error_exits(b, c):
+def error_exits(b, c, depth=0):
     """Err edges of call `c` on which the function returns *that* failure: the blocks
     dominated by the edge build the return value with from_residual / Err{..}.  Re-tests of
     the discriminant that drop elaboration adds later are discarded (an edge dominated by
@@ -112,6 +112,34 @@ def error_exits(b, c):
             for st in b.blocks[blk]["stmts"]:
                 if st["k"] == "assign" and st["place"]["l"] == 0 and not st["place"]["p"] and st["rv"]["k"] == "agg" and st["rv"].get("variant") == "Err":
                     exit_blocks.append(blk)
+        if not exit_blocks and depth < 4:
+            # the failure is returned by an inlined helper (core/inline.py): it counts if the caller in turn
+            # returns the helper's failure - the helper's result is judged as a call of its own
+            roots = set(b.j.get("_inl_roots") or [])
+            starts = []
+            for blk in b.live_blocks:
+                if not b.edge_guards(e, blk):
+                    continue
+                t = b.term(blk)
+                if t["k"] == "call" and strip_generics(t.get("callee") or "").endswith("::from_residual") and t["dest"]["l"] in roots and not t["dest"]["p"]:
+                    starts.append(blk)
+                for st in b.blocks[blk]["stmts"]:
+                    if st["k"] == "assign" and st["place"]["l"] in roots and not st["place"]["p"] and st["rv"]["k"] == "agg" and st["rv"].get("variant") == "Err":
+                        starts.append(blk)
+            for X in starts:
+                # the paths were split on the variant of the helper's result (the caller's `?` is resolved on them): the
+                # failure is returned if every way from here to a return builds the function's own Err
+                reach = b.reachable_from([X])
+                outer = []
+                for blk in reach:
+                    t = b.term(blk)
+                    if t["k"] == "call" and strip_generics(t.get("callee") or "").endswith("::from_residual") and t["dest"]["l"] == 0:
+                        outer.append(blk)
+                    for st in b.blocks[blk]["stmts"]:
+                        if st["k"] == "assign" and st["place"]["l"] == 0 and not st["place"]["p"] and st["rv"]["k"] == "agg" and st["rv"].get("variant") == "Err":
+                            outer.append(blk)
+                if outer and not [r for r in b.return_blocks() if r in b.reachable_from([X], removed_blocks=outer)]:
+                    exit_blocks += outer
         if exit_blocks:
             out.append((e, exit_blocks))
     return out
